@@ -156,6 +156,11 @@ func genC17(gen *sim.Stream, maxDecls int) *c17Input {
 		case "type":
 			return "len([]" + names[j] + "{})"
 		}
+		if kinds[j] == "const" && gen.Draw(4) == 0 {
+			// the constant as key of a map / array / slice literal (also with elided inner types)
+			return []string{"len(map[int]int{" + names[j] + ": 1})", "len([...]int{" + names[j] + ": 1})",
+				"len(map[int][]int{1: {" + names[j] + ": 1}})", "len([]int{" + names[j] + ": 2})"}[gen.Draw(4)]
+		}
 		if r := mapvar[j]; r > 0 {
 			return "len(" + names[j] + ")"
 		} else if r < 0 {
@@ -214,7 +219,19 @@ func genC17(gen *sim.Stream, maxDecls int) *c17Input {
 				if kinds[j] == "type" {
 					fields = append(fields, fmt.Sprintf("\tF%d *%s\n", k, names[j]))
 				} else {
-					fields = append(fields, fmt.Sprintf("\tF%d [%s]int\n", k, names[j]))
+					if gen.Draw(3) == 0 {
+						// a field with the same name as the constant: field names are not in
+						// scope inside the struct type, the array length below is the constant
+						fields = append(fields, fmt.Sprintf("\t%s int\n", names[j]))
+					}
+					switch gen.Draw(4) {
+					case 0:
+						fields = append(fields, fmt.Sprintf("\tF%d func(%s int) [%s]int\n", k, names[j], names[j]))
+					case 1:
+						fields = append(fields, fmt.Sprintf("\tF%d interface {\n\t\t%s()\n\t\tM() [%s]int\n\t}\n", k, names[j], names[j]))
+					default:
+						fields = append(fields, fmt.Sprintf("\tF%d [%s]int\n", k, names[j]))
+					}
 				}
 			}
 			if gen.Draw(3) == 0 {
@@ -268,6 +285,10 @@ func genC17(gen *sim.Stream, maxDecls int) *c17Input {
 			}
 			if gen.Draw(4) == 0 {
 				fmt.Fprintf(&body, "\tif false {\n\t\t%s(%s)\n\t}\n", names[i], map[bool]string{true: "1", false: ""}[params != ""])
+			}
+			if lb := decoy(i); lb != "" && lb != dc {
+				// a label named like an unrelated global is not a reference to it
+				fmt.Fprintf(&body, "\tgoto %s\n%s:\n\tfor {\n\t\tbreak %s\n\t}\n", lb, lb, lb)
 			}
 			d.Src = fmt.Sprintf("func %s(%s) %s {\n%s\treturn 0\n}\n", names[i], params, results, body.String())
 		}
@@ -341,7 +362,7 @@ func init() {
 	register(&Prop{
 		ID:    "C17",
 		Level: "exploration",
-		Rule: "one run = one dependency graph over 2..9 declarations of mixed kinds (quick; thorough up to 12) rendered as Go source with the references placed in initialisers, function-literal bodies, struct field types, array lengths and function bodies at block depth 0..2, with parameters / results / locals that shadow unrelated package-level names, pairs of vars sharing one spec with an explicit type, optional package clause, imports and statements between runs of declarations; sorted under 1 canonical and 12 seeded map-iteration orders (every `range` over a map in base/dep is rewritten at check time to an order the simulator permutes); " +
+		Rule: "one run = one dependency graph over 2..9 declarations of mixed kinds (quick; thorough up to 12) rendered as Go source with the references placed in initialisers, function-literal bodies, struct field types, array lengths and function bodies at block depth 0..2, with parameters / results / locals that shadow unrelated package-level names, pairs of vars sharing one spec with an explicit type, struct fields / function-type parameters / interface methods named like a referenced constant, constants as keys of map, array and slice literals, labels named like unrelated globals, optional package clause, imports and statements between runs of declarations; sorted under 1 canonical and 12 seeded map-iteration orders (every `range` over a map in base/dep is rewritten at check time to an order the simulator permutes); " +
 			"non-trivial = at least 3 declarations and 2 dependency edges; distinct = distinct source text",
 		Runs: func(tier string) int {
 			if tier == "thorough" {
